@@ -23,12 +23,17 @@ STALL_KEY = "stalled-report-blocks-forget"
 # case construction
 # ------------------------------------------------------------------------------------------------
 
+_GEN_CACHE = {}
+
+
 def ent_bytes(e):
     if e.get("d"):
         return bytes.fromhex(e["d"])
     n = e.get("n", 0)
     f = e.get("fill", 0)
-    return bytes(((f * 131 + i * 7 + (i >> 8)) & 0xFF) for i in range(n))
+    if (n, f) not in _GEN_CACHE:
+        _GEN_CACHE[(n, f)] = bytes(((f * 131 + i * 7 + (i >> 8)) & 0xFF) for i in range(n))
+    return _GEN_CACHE[(n, f)]
 
 
 def expand(rs):
@@ -191,7 +196,12 @@ def gen_adapter(rng, n):
         w0, w1 = combos[k % 4]
         side = (k // 4) % 3                     # 0: only target->source bytes, 1: only source->target, 2: both
         def msgs():
-            return [dict(rand_data(rng, rng.choice([1, 5, 64, 900])), e=0) for _ in range(rng.randrange(1, 4))]
+            out = []
+            for _ in range(rng.randrange(1, 4)):
+                if out and rng.random() < 0.5:
+                    out.append({"d": "", "e": 1})          # a transient timeout BETWEEN two data reads: the stream goes on
+                out.append(dict(rand_data(rng, rng.choice([1, 5, 64, 900])), e=rng.choice([0, 0, 1])))   # or together with data
+            return out
         c = {"mode": "free", "limit": 0, "wrap0": w0, "wrap1": w1, "deliver_ms": 600, "w0": [], "w1": [],
              "r0": msgs() if side in (1, 2) else [], "r1": msgs() if side in (0, 2) else [], "end0": "hold", "end1": "hold", "sched": []}
         out.append(c)
@@ -306,6 +316,17 @@ def gen_reattach(rng, n):
     return out
 
 
+def gen_stall_midstream(rng, n):
+    """the stats backend is stuck for the whole life of the tunnel while >= 3 MiB flow in each direction (several 1 MiB counter
+    batches): everything must arrive, closure must propagate and the tunnel must be forgotten"""
+    out = []
+    for k in range(n):
+        reps = rng.choice([96, 100])
+        out.append({"mode": "stall", "stall_on": "update", "arm_early": True, "ender": k % 2, "long": False, "big": True,
+                    "r0": [{"n": BUF, "fill": 3 + k, "e": 0, "rep": reps}], "r1": [{"n": BUF - 1, "fill": 9 + k, "e": 0, "rep": reps}]})
+    return out
+
+
 def stall_deterministic(c):
     """the direction that ends the tunnel has flushed >= 1 byte into its counter before it calls Close, so the final report
     made by Close's clean handler is due and parks in the stalled call"""
@@ -392,6 +413,8 @@ def classify(c, o, sliced):
         return "reattach-bytes-to-stale-end" if "did not reach the attached source end" in (o.get("prop_msg") or "") else "reattach-tunnel-broken"
     if key == "stuck" and "waiting for limiter tokens" in (o.get("prop_msg") or ""):
         return "token-wait-not-aborted-by-closure"
+    if key == "stalled-stats":
+        return "copy-loop-waits-for-stats-backend"
     if key == "deadline":
         return "deadline-set-on-live-direction"
     if key == "closed-early":
@@ -473,6 +496,7 @@ def run(ctx, only_cases=None):
         cases += gen_reqresp(rng, 32 if thorough else 8)
         cases += gen_parent_cancel(rng, 40 if thorough else 10)
         cases += gen_cancel_in_wait(rng, 8 if thorough else 2)
+        cases += gen_stall_midstream(rng, 4 if thorough else 1)
         if thorough:   # real loopback TCP, real 6.5 s pause of the remaining direction after the first one half-closed
             cases.append({"mode": "relay", "relay": "bidir", "flow": "reqresp", "fail_end": 0, "tcp": True, "delay_ms": 6500})
     # the start race can kill the harness process (nil dereference inside a goroutine of Bridge.Start): own process
@@ -558,7 +582,7 @@ def run(ctx, only_cases=None):
             "stats_backend_stalled": 0, "final_report_parked": 0, "forget_required_while_parked": 0,
             "write_parked_at_teardown": 0, "source_reattach_histories": 0, "reattaches": 0,
             "adapter_wrapped_end": 0, "one_sided_traffic_both_ends_open": 0, "end_fails_non_eof": 0, "half_close_relay": 0,
-            "parent_context_cancelled": 0, "write_error_transient_timeout": 0, "bytes_with_error_on_adapter_end": 0, "close_during_token_wait": 0, "relay_pause_longer_than_any_deadline": 0, "permanent_timeout_failure": 0, "close_races_reattach": 0, "relay_end_without_half_close": 0, "early_eof_other_direction_live": 0}
+            "parent_context_cancelled": 0, "write_error_transient_timeout": 0, "bytes_with_error_on_adapter_end": 0, "close_during_token_wait": 0, "stats_backend_stuck_midstream_3MiB": 0, "adapter_timeout_between_data": 0, "relay_pause_longer_than_any_deadline": 0, "permanent_timeout_failure": 0, "close_races_reattach": 0, "relay_end_without_half_close": 0, "early_eof_other_direction_live": 0}
     for c, o in zip(cases, outs):
         h = hashlib.sha256(json.dumps(c, sort_keys=True).encode()).hexdigest()
         distinct.add(h)
@@ -570,6 +594,8 @@ def run(ctx, only_cases=None):
         dist["bytes_with_error_on_adapter_end"] += (bool(c.get("wrap0")) and any(r["e"] >= 2 and ent_bytes(r) for r in c.get("r0", []))) or \
             (bool(c.get("wrap1")) and any(r["e"] >= 2 and ent_bytes(r) for r in c.get("r1", [])))
         dist["close_during_token_wait"] += bool(c.get("return_ms"))
+        dist["stats_backend_stuck_midstream_3MiB"] += bool(c.get("arm_early"))
+        dist["adapter_timeout_between_data"] += bool(c.get("wrap0") or c.get("wrap1")) and any(r["e"] == 1 for r in c.get("r0", []) + c.get("r1", []))
         dist["parent_context_cancelled"] += bool(c.get("pcancel")) or (m == "bridge" and 2 in c.get("sched", [])) or any(op["op"] == "pcancel" for op in c.get("hist", []))
         dist["relay_pause_longer_than_any_deadline"] += m == "relay" and c.get("delay_ms", 0) >= 6000
         dist["permanent_timeout_failure"] += (m == "relay" and c.get("fail_e") == 4) or any(r["e"] == 4 for r in c.get("r0", []) + c.get("r1", []))
